@@ -1,7 +1,7 @@
 (* C17 — Masking is an exact, chunk-composable XOR for every length, alignment and key.
    This file holds statements only; proofs live in Proofs/MaskP.v (and Proofs/MaskAsmP.v). *)
 From Coq Require Import List NArith.
-From WS Require Import Base.Words Model.Mask Proofs.MaskP.
+From WS Require Import Base.Words Model.Mask Proofs.MaskP Model.MaskAsm Proofs.MaskAsmP.
 Import ListNotations.
 Open Scope N_scope.
 
@@ -16,6 +16,14 @@ Print Assumptions C17_spec_pointwise.
 Theorem C17_maskGo : forall k b, wf_key k -> wf_bytes b -> maskGo k b = (mask_spec k b, rotk k (length b)).
 Proof. exact maskGo_spec. Qed.
 Print Assumptions C17_maskGo.
+
+(* the amd64 assembly (mask_amd64.s, rendered label by label in Model/MaskAsm.v): every start
+   alignment (= length pre), every length, every key; the bytes around the buffer are untouched and
+   no access leaves the buffer (an out-of-bounds access is the value AsmFault) *)
+Theorem C17_maskAsm : forall pre b post k, wf_key k -> wf_bytes b ->
+  maskAsm_amd64 (pre, b, post) k = AsmDone (pre, mask_spec k b, post) (rotk k (length b)).
+Proof. exact maskAsm_spec. Qed.
+Print Assumptions C17_maskAsm.
 
 (* masking in two consecutive pieces of any sizes = masking whole *)
 Theorem C17_compose : forall k b1 b2, mask_spec k (b1 ++ b2) = mask_spec k b1 ++ mask_spec (rotk k (length b1)) b2.
